@@ -22,10 +22,28 @@ THEOREMS = [
     (M, "C04.strategy_table", "the capability constants and per-format strategies are the ones generated from the source (dtd/properties/ini merge, ftl/po/android skip, inc copy)"),
     (M, "C04.android_duplicates_witness", "negation witness (finding F5): a single skip with span (None, None) writes the whole text twice and removes nothing; two such skips raise TypeError"),
     (M, "C04.dup_skip_appends_twice_witness", "negation witness (F13, fixed in /repo): the same entity listed twice in skips would be appended twice"),
+    (M, "C04.append_reparses_properties_partial", "re-parse, clean append (.properties): l10n = printed safe records `key=value` (with or without final newline), nothing cut, "
+        "missing reference entries appended: staged text = l10n + newline + entries, and its walk yields exactly the localized records then the reference records, no junk"),
+    (M, "C04.cut_reparses_properties_partial", "re-parse, junk cut (.properties): a garbage line between printed records is ONE junk entry spanning exactly the line with its newline "
+        "(garbage locality); cutting that span (plus appending missing entries) stages the printed records without it, which parse to exactly the records, no junk"),
+    (M, "C04.skip_entity_reparses_properties_partial", "re-parse, entity cut (.properties): skipping the span the walk reports for one record (key=value without its newline) and appending its "
+        "reference entry stages a text that parses to the kept records, the missing records and the reference record, no junk"),
+    (M, "C04.printed_splices_stable", "the decidable predicate SpliceStable (every cut starts at a line start or keeps its line end; kept text does not end in an odd run of backslashes "
+        "when entries are appended) holds for the three splices above"),
+    (M, "C04.f4_unstable_witness", "negation witness (finding F4): for l10n `a=X\\` + missing `b=B` SpliceStable is false and the walk of the staged text has ONE entity: `b` is swallowed as a continuation line"),
+    (M, "C04.f4_even_run_witness", "with an even run of backslashes SpliceStable holds and the appended entry is parsed"),
+    (M, "C04.f14_unstable_witness", "negation witness (finding F14): ini `[Strings]\\⏎; c⏎k=v`: the junk span (9,11) starts mid-line and ends with the line end, SpliceStable is false, "
+        "and the staged text has a NEW junk entry (the comment line fused onto the section line)"),
+    (M, "C04.append_reparses_ini_partial", "re-parse, clean append (.ini): `[name]` + printed ini records (value = anything but newline) + appended reference entries parse to the section, "
+        "the localized records and the reference records, no junk; no backslash hypothesis needed"),
 ]
 PARTIAL = [
-    "re-parse claims (staged file re-compares with no junk / no check errors / nothing missing) are decided by executing the real code (oracle) — "
-    "they are false for some inputs (known findings) and no unconditional theorem exists; the SpliceStable-conditional theorem of DESIGN.md is not proved yet",
+    "re-parse claims (staged file re-compares with no junk / nothing missing / localized values kept) are PROVED only for the printed class of C02 "
+    "(`.properties`: safe records `key=value`, no comments/escapes/continuation lines/other layouts; `.ini`: `[name]` + records `key=value`), for the clean append, "
+    "the cut of ONE whole-line junk entry and the cut of ONE entity; on that class the decidable hypothesis SpliceStable holds, and the known findings F4/F14 are "
+    "kernel-checked inputs with SpliceStable = false on which the claim fails. NOT proved: arbitrary localized texts satisfying SpliceStable, several cuts at once "
+    "(needs `sortSkips` of a permutation), dtd, 'no check errors' of the re-comparison (checks are C06/C07); these are decided by executing the real code (oracle), "
+    "which also replays the theorem class (`thm-*` cases: predicted staged text and predicted entities compared with the real run)",
 ]
 TRUSTED = [
     "hand-written model CLModel/Compare/Merge.lean of ContentComparer.merge (tied by the `merge` correspondence on the arguments the real code passes)",
@@ -34,10 +52,11 @@ TRUSTED = [
 ASSUMPTIONS = ["reference validates without errors and warnings against itself; localization has no duplicate keys (cases violating the precondition are skipped and counted)"]
 LEVEL_TEXT = ("Lean 4 theorems about the splice algorithm of l10n-merge for ALL texts/skip lists (text spec, subsequence property for skip-only "
               "formats, byte-identical staging of clean files, copy-only strategy, capability table regenerated from the source); the model is "
-              "tied to ContentComparer.merge by replaying the exact arguments of real runs; the end-to-end claims (re-compare is clean and "
+              "tied to ContentComparer.merge by replaying the exact arguments of real runs; for printed .properties/.ini texts the staged text is proved to "
+              "re-parse to exactly the expected entities without junk (append / one junk cut / one entity cut); the end-to-end claims (re-compare is clean and "
               "complete, per-key values, inputs untouched, nothing written outside the merge path) are decided on the real code per generated case")
-LEVEL_NOTE = ("trusted: Lean kernel, merge model correspondence, audit-hook observation; re-parse stability is not proved (known findings F4, F5 "
-              "show it is false in general)")
+LEVEL_NOTE = ("trusted: Lean kernel, merge model correspondence, parser model correspondence (C01/C02), audit-hook observation; re-parse stability is proved "
+              "for printed .properties/.ini texts only (append, one junk cut, one entity cut) under the decidable SpliceStable hypothesis; F4/F14 are its negations, F5 is outside")
 TECHNIQUE = "Lean 4 proof over a model of the merge splice + differential correspondence + end-to-end oracle on real merges"
 
 FORMATS = ["properties", "dtd", "ini", "inc", "ftl", "po", "android"]
@@ -75,12 +94,80 @@ def gen_cases(ctx):
             if fmt != "android":
                 l10n += tail
             cases.append({"fmt": fmt, "ref": R.print_file(fmt, recs), "l10n": l10n, "mode": "compare", "tag": "directed-tail"})
+    cases.extend(theorem_class_cases(rng, max(12, per // 8)))
     for i in range(max(3, per // 10)):
         recs, kinds = R.gen_reference("unknown", rng) if False else ([("k%d" % j, "v", None) for j in range(3)], None)
         txt = R.print_file("unknown", recs)
         cases.append({"fmt": "unknown", "ref": txt, "l10n": txt + "localized\n", "mode": "compare", "tag": "unknown-type"})
         cases.append({"fmt": "unknown", "ref": txt, "l10n": None, "mode": "add", "tag": "unknown-missing"})
     return cases
+
+
+THM_WORDS = ["alpha", "beta gamma", "x", "two  blanks", "100 percent", "a=b", "hash # inside", "bang!", "colon: here", ""]
+THM_GARBAGE = ["garbage", "just some words without separator", "%%%", "\\u0041 x"]
+
+
+def theorem_class_cases(rng, n):
+    """the class of C04.append_/cut_/skip_entity_reparses_properties_partial and append_reparses_ini_partial: records printed `key=value`,
+    one per line; the staged text and the parsed entities are predicted by construction (independently of the Lean model)"""
+    out = []
+    for i in range(n):
+        fmt = "ini" if i % 4 == 3 else "properties"
+        shape = "append" if fmt == "ini" else ["append", "cut", "skip-entity"][i % 4 % 3]
+        nrec = rng.randrange(1, 6)
+        keys = ["%s%d" % (rng.choice(["first", "second.label", "third-x", "k"]), j) for j in range(nrec)]
+        vals = [rng.choice(THM_WORDS) for _ in keys]
+        if fmt == "ini":
+            vals = [v if rng.random() < 0.7 else v + rng.choice([" ", "\\", " \\ "]) for v in vals]     # blanks / backslashes at the end are fine in ini
+        bad = None
+        if shape == "skip-entity":
+            bad = rng.randrange(nrec)
+            vals[bad] = "%S and %S"
+        head = "[Strings]\n" if fmt == "ini" else ""
+        ref = head + "".join("%s=%s\n" % kv for kv in zip(keys, vals))
+        kept = [j for j in range(nrec) if j == bad or rng.random() < 0.6]
+        if shape != "cut" and len(kept) == nrec and bad is None:
+            kept = kept[:-1]                                  # something must be appended in the append shape
+        lvals = {j: ("%d und" if j == bad else ("L " + vals[j]).rstrip() if fmt != "ini" else "L " + vals[j]) for j in kept}
+        lines = ["%s=%s" % (keys[j], lvals[j]) for j in kept]
+        final_nl = rng.random() < 0.7 or shape != "append" or not lines
+        exp_lines = [l for j, l in zip(kept, lines) if j != bad]
+        if shape == "cut":
+            g = rng.choice(THM_GARBAGE)
+            pos = rng.randrange(len(lines) + 1)
+            lines.insert(pos, g)
+        l10n = head + "".join(l + "\n" for l in lines)
+        if not final_nl:
+            l10n = l10n[:-1]
+        if shape == "skip-entity":
+            kept_text = head + "".join(("\n" if j == bad else "%s=%s\n" % (keys[j], lvals[j])) for j in kept)
+        elif shape == "cut":
+            kept_text = head + "".join(l + "\n" for l in exp_lines)
+        else:
+            kept_text = l10n
+        tail = ["%s=%s\n" % (keys[j], vals[j]) for j in range(nrec) if j not in kept or j == bad]
+        ents = [[keys[j], lvals[j]] for j in kept if j != bad]
+        out.append({"fmt": fmt, "ref": ref, "l10n": l10n, "mode": "compare", "tag": "thm-" + shape + ("-ini" if fmt == "ini" else ""),
+                    "expect": {"kept": kept_text, "tail": tail, "entities": ents, "staged": bool(tail) or shape != "append"}})
+    return out
+
+
+def check_expect(case, v, merged, mp):
+    """theorem class: the real staged text / real parse against the prediction by construction"""
+    exp = case["expect"]
+    bad = []
+    if not exp["staged"]:
+        return bad
+    want_head = exp["kept"] + "\n"
+    if not merged.startswith(want_head) or sorted(merged[len(want_head):].splitlines(True)) != sorted(exp["tail"]):
+        bad.append(("theorem class: staged text %r differs from the predicted %r + permutation of %r" % (merged[:300], want_head, exp["tail"]), None))
+        return bad
+    tail_now = merged[len(want_head):].splitlines(True)
+    want_ents = exp["entities"] + [l[:-1].split("=", 1) for l in tail_now]
+    got = [[e[0], e[1]] for e in mp["entities"]]
+    if got != want_ents or mp["junk"]:
+        bad.append(("theorem class: staged text parses to %r junk %r, predicted %r without junk" % (got, mp["junk"], want_ents), None))
+    return bad
 
 
 def keystr(k):
@@ -228,6 +315,8 @@ def oracle(case, r):
         return bad
     rep2 = v.get("report2")
     mp = v.get("merged_parse") or {"entities": [], "junk": []}
+    if case.get("expect") is not None:
+        bad.extend(check_expect(case, v, merged, mp))
     s2 = summary_of(rep2) if rep2 else {}
     if mp["junk"] or any("Unparsed content" in str(d.get("error", "")) for d in flat_details(rep2 or {})):
         bad.append(("staged file has unparsed content: %r" % (mp["junk"][:1],), fid))
